@@ -1188,12 +1188,19 @@ where
             if !removed_postings.contains(&token) {
                 continue;
             }
-            let unlist = match self.postings.get(&token) {
-                Some(posting) => posting.0 != bucket_id,
-                None => true,
-            };
-            if unlist && let Some(mut bucket) = self.buckets.get_mut(&bucket_id) {
-                bucket.tokens.swap_remove_if(|k| k == &token);
+            // Decided under the bucket guard, as `remove` does: an insert
+            // that re-creates the posting lists the token under this same
+            // guard, so it either sees the token still listed and keeps it, or
+            // runs after the unlisting and lists it again. Decided before the
+            // guard, the two could interleave into a posting no bucket lists.
+            if let Some(mut bucket) = self.buckets.get_mut(&bucket_id) {
+                let unlist = match self.postings.get(&token) {
+                    Some(posting) => posting.0 != bucket_id,
+                    None => true,
+                };
+                if unlist {
+                    bucket.tokens.swap_remove_if(|k| k == &token);
+                }
             }
         }
 
